@@ -20,22 +20,25 @@ TRUSTED = [
     "modelled by hand (Log/Filter.v): UnaryNot/And/Or/MessageFilterNode.match + MatchResult truthiness, "
     "AbstractMessageLogEntry._base_matches/_val_matches/_apply_operator/_packet_root_matches, LLUDPMessageLogEntry.matches/_get_meta, "
     "HTTPMessageLogEntry._get_meta, the comparison dunders of TupleCoord and JankStringyBytes, and the CPython semantics of "
-    "== != < <= > >= in startswith endswith & on None/bool/int/float/str/bytes/tuple (floats as exact rationals; NaN/inf and "
-    "are not generated; fnmatch restricted to '*', the only wildcard the "
+    "== != < <= > >= in startswith endswith & on None/bool/int/float/str/bytes/tuple (floats as exact rationals; NaN/inf are "
+    "not generated; fnmatch restricted to '*', the only wildcard the "
     "identifier grammar admits; str.lower on ASCII)",
-    "modelled by hand (Log/LogView.v): FilteringMessageLogger.add_log_entry/set_filter/set_paused/clear, deque(maxlen).append, "
-    "list.extend(generator) keeping the items appended before the generator raised; entries are identified by object identity",
+    "modelled by hand (Log/LogView.v): FilteringMessageLogger.add_log_entry/set_filter/set_paused/clear, deque(maxlen).append; "
+    "set_filter evaluates the new filter on everything before it changes any state (a raising match leaves the logger unchanged); "
+    "entries are identified by object identity",
     "supplied as data by the harness (not modelled): str() of UUID/TupleCoord/JankStringyBytes/dict objects, Block.deserialize_var (subfield "
     "serializers, C08/C09), resolution of EnumFieldSpecifier in hippolyzer.lib.proxy.templates, construction of log entries",
     "the arpeggio grammar + MessageFilterVisitor are tied by correspondence only (printed AST -> compile_filter -> node tree "
     "compared with the AST), not modelled in Coq",
-    "export/import and freeze/thaw clause: implementation-level oracle only (pickle, gzip, repr/literal_eval, LLSD notation are not modelled)",
+    "export/import and freeze/thaw clause: implementation-level oracle only (pickle, gzip, repr/literal_eval, LLSD notation, "
+    "Message.to_dict/from_dict are not modelled); the logged messages are decoded from wire bytes by the real "
+    "UDPMessageSerializer/UDPMessageDeserializer, which are used as they are (their own correctness is C01/C02), and the "
+    "re-serialised datagram is compared byte for byte",
     "compile_filter is memoised by the harness during logger sequences (filter nodes are immutable)",
-    "PARTIAL (nothing unproved, but two statements hold only under a stated hypothesis because the full statements are false of "
-    "the current code - see C18_never_error_refuted / C18_view_invariant_refuted and the impl-level findings): "
-    "C18_never_error_partial requires `safe f` (excludes ill-formed Meta/enum references, `~=` against an int outside range(256), "
-    "`&` on a Meta selector); C18_view_invariant_partial requires that filters installed by set_filter do not raise on logged "
-    "entries.  .proposed/C18-verif-model-after-fixes.diff removes both restrictions once the /repo patches are applied",
+    "nothing is unproved or partial: C18_never_error quantifies over well-formed filters (`safe`: every expected value is a literal, "
+    "a single-level Meta reference or an enum reference that resolves - an ill-formed reference raises by design when it is resolved, "
+    "C18_ill_formed_raises) and C18_view_invariant needs no no-raise hypothesis; the seven defects found earlier "
+    "(ee20324, 7c352a5, 2a50dc8, d24ac43, 85c28f0 and before them 70311e8, e2d67fe) are fixed in /repo and kept as corpus regressions",
     "not modelled: HTTPMessageLogEntry/EQMessageLogEntry request/summary formatting, WrappingMessageLogger, Qt model hooks "
     "(_begin_insert/_begin_reset), time-varying Meta values (CurrentSelected*, message attributes changed after logging)",
 ]
@@ -309,6 +312,8 @@ def mk_entry(spec):
             blocks.append(b)
         msg = Message(spec["name"], *blocks, packet_id=spec.get("packet_id"), flags=spec.get("flags", 0),
                       acks=tuple(spec["acks"]) if spec.get("acks") is not None else None)
+        for bname in spec.get("empty_blocks", []):
+            msg.create_block_list(bname)        # a block list that is present but empty
         if spec.get("extra"):
             msg.raw_extra = bytes.fromhex(spec["extra"])
         msg.dropped = bool(spec.get("dropped", False))
@@ -847,7 +852,7 @@ EXH_LEAVES = [
 ]
 
 FIXED_CASES = [
-    # the literal filters of tests/proxy/test_message_filter.py and the replayed defects
+    # the literal filters of tests/proxy/test_message_filter.py and the defects fixed so far (regressions)
     (["leaf", ["Foo", "Bar", "Baz"], "<", ["lit", ["int", 5]]], {"type": "LLUDP", "name": "Foo", "blocks": [["Bar", [["Baz", ["str", "abc"]]]]]}),
     (["leaf", ["Foo", "Bar", "Baz"], "^=", ["lit", ["str", "a"]]], {"type": "LLUDP", "name": "Foo", "blocks": [["Bar", [["Baz", ["int", 5]]]]]}),
     (["leaf", ["Foo", "Bar", "Baz"], "~=", ["lit", ["int", 256]]], {"type": "LLUDP", "name": "Foo", "blocks": [["Bar", [["Baz", ["bytes", "616263"]]]]]}),
@@ -899,10 +904,9 @@ def load_corpus():
     return out
 
 
-# defects of the current /repo code found by this check (see the .proposed/C18-*.diff patches); violations of any
-# other class are reported first so that a new failure is what the replay file shows
-DOCUMENTED = {"contains-int-out-of-byte-range", "band-on-meta-int-result", "ge-le-unparseable", "ne-and-eq-both-true",
-              "ne-and-eq-both-false", "set-filter-not-atomic", "export-bytearray-extra"}
+# classes of violations that are recorded as open findings (none at present: everything found so far is fixed in /repo and
+# kept as a corpus regression).  Violations of any other class are reported first, so a new failure is what the replay shows.
+DOCUMENTED = set()
 
 
 def dedupe_violations(viols, per_class=3):
@@ -987,7 +991,7 @@ LOG_FILTERS = [
     ["leaf", ["Foo"], None, None],
     ["leaf", ["*", "Bar", "Baz"], None, None],
     ["not", ["leaf", ["Foo"], None, None]],
-    # raises ValueError on LOG_ENTRIES[1] (finding contains-int-out-of-byte-range) - only used by the `raising` sequences
+    # used to raise ValueError on LOG_ENTRIES[1] (fixed ee20324: now simply false) - kept in the `raising` alphabet as a regression
     ["leaf", ["*", "Bar", "Baz"], "~=", ["lit", ["int", 256]]],
     # ill-formed (unknown enum): raises AttributeError on every entry with a Bar.Baz field
     ["leaf", ["*", "Bar", "Baz"], "==", ["enum", "Bogus", "X"]],
@@ -1193,9 +1197,282 @@ def canon(v):
     return v
 
 
+# ---- messages decoded from real wire bytes ---------------------------------
+
+_WIRE = None
+
+
+class _WireImpl:
+    """the real UDP codec; the deserializers are kept alive (lazily parsed messages hold a weak reference)"""
+
+    def __init__(self):
+        import logging
+        from hippolyzer.lib.base.message.udpserializer import UDPMessageSerializer
+        from hippolyzer.lib.base.message.udpdeserializer import UDPMessageDeserializer
+        from hippolyzer.lib.base.settings import Settings
+        from hippolyzer.lib.base.message.template_dict import DEFAULT_TEMPLATE_DICT
+        logging.getLogger("message.udpdeserializer").setLevel(logging.CRITICAL + 1)
+        logging.getLogger("message.udpserializer").setLevel(logging.CRITICAL + 1)
+        self.ser = UDPMessageSerializer()
+        eager, lazy = Settings(), Settings()
+        eager.ENABLE_DEFERRED_PACKET_PARSING = False
+        lazy.ENABLE_DEFERRED_PACKET_PARSING = True
+        self.eager = UDPMessageDeserializer(settings=eager)
+        self.lazy = UDPMessageDeserializer(settings=lazy)
+        self.templates = DEFAULT_TEMPLATE_DICT.message_templates
+
+    def serialize(self, m):
+        try:
+            return bytes(self.ser.serialize(m))
+        except Exception as ex:
+            return "EXC:" + type(ex).__name__
+
+
+def wire_impl():
+    global _WIRE
+    if _WIRE is None:
+        _WIRE = _WireImpl()
+    return _WIRE
+
+
+F32_POOL = [0.0, 1.0, -1.0, 0.5, 1.5, 128.25, -0.125, 3.4028234663852886e+38, 1e-3]
+VAR_PAYLOADS = [b"", b"\x00", b"abc\x00", b"abc", b"Hello World\x00", b"h\xc3\xa9llo\x00", b"\xff\xfe\x00\x01", b"a\x00b\x00",
+                b"\x00\x00", bytes(range(40))]
+
+
+def wire_value(rng, var):
+    """a value in the wire domain of a template variable (every MsgType)"""
+    import struct
+    from hippolyzer.lib.base.datatypes import Vector3, Vector4, Quaternion, UUID
+    from hippolyzer.lib.base.message.msgtypes import MsgType as T
+    t = var.type
+    unsigned = {T.MVT_U8: 8, T.MVT_U16: 16, T.MVT_U32: 32, T.MVT_U64: 64, T.MVT_IP_PORT: 16}
+    signed = {T.MVT_S8: 8, T.MVT_S16: 16, T.MVT_S32: 32, T.MVT_S64: 64}
+
+    def f32():
+        if rng.random() < 0.6:
+            return rng.choice(F32_POOL)
+        return struct.unpack("<f", struct.pack("<f", rng.uniform(-1000, 1000)))[0]
+    if t in unsigned:
+        b = unsigned[t]
+        return rng.choice((0, 1, (1 << b) - 1, 1 << (b - 1), rng.getrandbits(b)))
+    if t in signed:
+        b = signed[t]
+        return rng.choice((0, -1, 1, -(1 << (b - 1)), (1 << (b - 1)) - 1, rng.getrandbits(b) - (1 << (b - 1))))
+    if t == T.MVT_F32:
+        return f32()
+    if t == T.MVT_F64:
+        return rng.choice((0.0, 0.1, -2.5, 1e300, rng.uniform(-1e6, 1e6)))
+    if t == T.MVT_LLVector3:
+        return Vector3(f32(), f32(), f32())
+    if t == T.MVT_LLVector3d:
+        return Vector3(rng.uniform(-1e6, 1e6), 0.1, rng.choice((0.0, 256000.5)))
+    if t == T.MVT_LLVector4:
+        return Vector4(f32(), f32(), f32(), f32())
+    if t == T.MVT_LLQuaternion:
+        return rng.choice((Quaternion(0.0, 0.0, 0.0, 1.0), Quaternion(0.5, 0.5, 0.5, 0.5), Quaternion(0.0, 0.7071067690849304, 0.0, 0.7071067690849304),
+                           Quaternion(1.0, 0.0, 0.0, 0.0)))
+    if t == T.MVT_LLUUID:
+        return UUID() if rng.random() < 0.2 else UUID(int=rng.getrandbits(128))
+    if t == T.MVT_BOOL:
+        return rng.choice((True, False))
+    if t == T.MVT_IP_ADDR:
+        return ".".join(str(rng.choice((0, 1, 127, 255, rng.getrandbits(8)))) for _ in range(4))
+    if t == T.MVT_FIXED:
+        return bytes(rng.choice((0, 0, 1, 255, rng.getrandbits(8))) for _ in range(var.size))
+    if t == T.MVT_VARIABLE:
+        mx = (1 << (8 * var.size)) - 1
+        v = rng.choice(VAR_PAYLOADS) if rng.random() < 0.7 else bytes(rng.getrandbits(8) for _ in range(rng.randrange(0, 60)))
+        return v[:mx]
+    raise ValueError(t)
+
+
+def wire_message(rng, tmpl, counts, keep, flags, extra, acks):
+    """counts: number of blocks per Variable block of the template (by index); keep: number of leading template blocks present"""
+    from hippolyzer.lib.base.message.message import Block, Message
+    from hippolyzer.lib.base.message.msgtypes import MsgBlockType as BT
+    m = Message(tmpl.name, packet_id=rng.choice((0, 1, 2 ** 32 - 1, rng.getrandbits(32), rng.getrandbits(8))), flags=flags)
+    for i, tb in enumerate(tmpl.blocks[:keep]):
+        n = 1 if tb.block_type == BT.MBT_SINGLE else tb.number if tb.block_type == BT.MBT_MULTIPLE else counts.get(i, 1)
+        m.create_block_list(tb.name)
+        for _ in range(n):
+            m.add_block(Block(tb.name, **{v.name: wire_value(rng, v) for v in tb.variables}))
+    if extra:
+        m.raw_extra = extra
+        m.offset = len(extra)
+    if flags & 0x10:
+        m.acks = tuple(acks)
+    return m
+
+
+def gen_wire_specs(ctx):
+    """yields roundtrip specs {"type": "WIRE", "hex": datagram, "lazy": bool, "tags": [...]} - datagrams produced by the real
+    serializer from template-driven messages; the logged message is what the real deserializer decodes from them"""
+    from hippolyzer.lib.base.message.msgtypes import MsgBlockType as BT
+    im = wire_impl()
+    rng = ctx.rng
+    names = sorted(im.templates)
+    by_pos = {"only": [], "first": [], "middle": [], "last": []}
+    for n in names:
+        t = im.templates[n]
+        for i, b in enumerate(t.blocks):
+            if b.block_type == BT.MBT_VARIABLE:
+                k = "only" if len(t.blocks) == 1 else "first" if i == 0 else "last" if i == len(t.blocks) - 1 else "middle"
+                by_pos[k].append((n, i))
+    plan = []
+    # structured part: a present-but-empty Variable block list at every position class (first / middle / last / only block of the
+    # template), then one and several blocks in the same place
+    per = ctx.pick(6, 40)
+    for k in ("first", "middle", "last", "only"):
+        cands = by_pos[k]
+        picks = cands if len(cands) <= per else rng.sample(cands, per)
+        for n, i in picks:
+            for cnt in (0, 1, 3):
+                plan.append((n, {i: cnt}, None, "empty-" + k if cnt == 0 else "n%d-%s" % (cnt, k)))
+    plan.append(("ObjectSelect", {1: 0}, None, "empty-last"))
+    # trailing blocks omitted
+    multi = [n for n in names if len(im.templates[n].blocks) >= 2]
+    for n in rng.sample(multi, ctx.pick(10, 80)):
+        plan.append((n, {}, rng.randrange(1, len(im.templates[n].blocks)), "trailing-omitted"))
+    # random part over the whole template
+    for _ in range(ctx.pick(120, 3000)):
+        plan.append((rng.choice(names), None, None, "random"))
+    flag_cycle = itertools.cycle([16 * x for x in range(16)])
+    for n, counts, keep, tag in plan:
+        t = im.templates[n]
+        if counts is None or tag != "random":
+            base = {i: rng.choice((0, 1, 1, 2, 3)) for i, b in enumerate(t.blocks) if b.block_type == BT.MBT_VARIABLE}
+            base.update(counts or {})
+            counts = base
+        flags = next(flag_cycle)
+        extra = rng.choice((b"", b"", b"\x01", b"abcd", bytes(rng.getrandbits(8) for _ in range(rng.randrange(1, 12)))))
+        acks = [rng.choice((0, 1, 2 ** 32 - 1, rng.getrandbits(32))) for _ in range(rng.choice((0, 1, 2, 5)))]
+        try:
+            m = wire_message(rng, t, counts, keep if keep is not None else len(t.blocks), flags, extra, acks)
+        except Exception:
+            continue
+        w = im.serialize(m)
+        if isinstance(w, str):
+            continue
+        tags = [tag, "flags%02x" % flags]
+        if extra:
+            tags.append("extra")
+        if flags & 0x10 and acks:
+            tags.append("acks")
+        if any(c >= 2 for c in counts.values()):
+            tags.append("several-blocks")
+        if tag == "random" and any(c == 0 for i, c in counts.items() if i < len(t.blocks)):
+            tags.append("empty-random")
+        yield {"type": "WIRE", "hex": w.hex(), "lazy": rng.random() < 0.4, "tags": tags}
+
+
+def check_wire_roundtrip(espec):
+    """A message decoded from wire bytes, logged, frozen/thawed and exported/imported keeps its full dict
+    (to_dict(extended=True), tuples/coordinates read as lists, block lists incl. the empty ones) and re-serialises to the
+    same datagram.  returns violation or None"""
+    from hippolyzer.lib.proxy import message_logger as ml
+    im = wire_impl()
+    base = {"kind": "roundtrip", "entry": {k: v for k, v in espec.items() if k != "tags"}}
+    wire = bytes.fromhex(espec["hex"])
+    try:
+        ref = im.eager.deserialize(wire)
+        d0 = canon(ref.to_dict(extended=True))
+    except Exception:
+        return None         # not a decodable datagram: outside the clause
+    w0 = im.serialize(ref)
+    if isinstance(w0, str):
+        return None
+    blocks0 = list(ref.blocks.keys())
+
+    def diff(stage, msg):
+        key = {"freeze/thaw": "freeze-thaw", "to_dict/from_dict": "entry-dict", "export/import": "export-import"}[stage]
+        d = canon(msg.to_dict(extended=True))
+        if d != d0:
+            missing = [b for b in blocks0 if b not in d["body"]]
+            cls = key + ("-drops-empty-block-list" if missing and all(d0["body"][b] == [] for b in missing) else "-dict")
+            return dict(base, clause=stage + " preserves the logged message (to_dict(extended=True))", **{"class": cls},
+                        message=d0["message"], missing_blocks=missing, got=d["body"] if missing else d, want=d0["body"] if missing else d0)
+        w = im.serialize(msg)
+        if w != w0:
+            return dict(base, clause=stage + " preserves the datagram the logged message serialises to", **{"class": key + "-wire"},
+                        message=d0["message"], got=w if isinstance(w, str) else w.hex(), want=w0.hex())
+        return None
+    try:
+        subject = (im.lazy if espec.get("lazy") else im.eager).deserialize(wire)
+        entry = ml.LLUDPMessageLogEntry(subject, None, None)
+        entry.freeze()
+        v = diff("freeze/thaw", entry.message)
+        if v:
+            return v
+        # a second thaw gives the same message again
+        v = diff("freeze/thaw", entry.message)
+        if v:
+            return v
+        one = ml.LLUDPMessageLogEntry.from_dict(entry.to_dict())
+        v = diff("to_dict/from_dict", one.message)
+        if v:
+            return v
+        imp = ml.import_log_entries(ml.export_log_entries([entry]))
+        if len(imp) != 1 or not isinstance(imp[0], ml.LLUDPMessageLogEntry):
+            return dict(base, clause="export/import preserves the entry", **{"class": "export-import"}, got=repr(imp)[:200])
+        v = diff("export/import", imp[0].message)
+        if v:
+            return v
+        if imp[0].name != entry.name or imp[0].type != entry.type or imp[0].seq != entry.seq or imp[0].method != entry.method:
+            return dict(base, clause="export/import preserves name/type/seq/method", **{"class": "export-import"},
+                        got=[imp[0].name, imp[0].type, imp[0].seq, imp[0].method])
+        # exporting the imported entry again is stable
+        imp2 = ml.import_log_entries(ml.export_log_entries(imp))
+        v = diff("export/import", imp2[0].message)
+        if v:
+            return v
+    except Exception as ex:
+        return dict(base, clause="export/import and freeze/thaw do not fail", **{"class": "roundtrip-raised-" + type(ex).__name__},
+                    message=d0["message"], got=str(ex)[:200])
+    return None
+
+
+def check_eq_template_roundtrip(espec):
+    """a templated message carried over the event queue (LLSDMessageSerializer form): the event survives export/import and
+    rebuilding the Message from the imported event gives the message that was sent"""
+    from hippolyzer.lib.base.message.llsd_msg_serializer import LLSDMessageSerializer
+    from hippolyzer.lib.proxy import message_logger as ml
+    im = wire_impl()
+    base = {"kind": "roundtrip", "entry": {k: v for k, v in espec.items() if k != "tags"}}
+    try:
+        ref = im.eager.deserialize(bytes.fromhex(espec["hex"]))
+        ser = LLSDMessageSerializer()
+        event = ser.serialize(ref, as_dict=True)
+        d0 = canon(ref.to_dict())
+    except Exception:
+        return None
+    try:
+        entry = ml.EQMessageLogEntry(event, None, None)
+        entry.freeze()
+        imp = ml.import_log_entries(ml.export_log_entries([entry]))
+        if len(imp) != 1 or canon(imp[0].event) != canon(event):
+            return dict(base, clause="export/import preserves the logged event", **{"class": "eq-export-import"},
+                        got=canon(imp[0].event) if imp else None, want=canon(event))
+        back = ser.deserialize(imp[0].event)
+        d = canon(back.to_dict())
+        if d != d0:
+            missing = [b for b in d0["body"] if b not in d["body"]]
+            return dict(base, clause="the message rebuilt from the imported event is the message that was sent",
+                        **{"class": "eq-rebuild-drops-empty-block-list" if missing else "eq-rebuild-dict"},
+                        message=d0["message"], missing_blocks=missing, got=d["body"], want=d0["body"])
+    except Exception as ex:
+        return dict(base, clause="export/import and freeze/thaw do not fail", **{"class": "roundtrip-raised-" + type(ex).__name__},
+                    message=d0["message"], got=str(ex)[:200])
+    return None
+
+
 def check_roundtrip(espec):
     """freeze/thaw and export/import preserve the logged message. returns violation or None"""
     from hippolyzer.lib.proxy import message_logger as ml
+    if espec.get("type") == "WIRE":
+        return check_wire_roundtrip(espec)
+    if espec.get("type") == "WIRE-EQ":
+        return check_eq_template_roundtrip(espec)
     base = {"kind": "roundtrip", "entry": espec}
     try:
         entry = mk_entry(espec)
@@ -1252,11 +1529,21 @@ def gen_roundtrip_specs(ctx):
             yield c["entry"]
     yield {"type": "FIXTURE"}
     rng = ctx.rng
+    # messages decoded from real wire bytes (the form every really logged message has)
+    n_eq = 0
+    for w in gen_wire_specs(ctx):
+        yield w
+        if n_eq < ctx.pick(40, 600) and ("empty" in w["tags"][0] or rng.random() < 0.2):
+            n_eq += 1
+            yield {"type": "WIRE-EQ", "hex": w["hex"], "tags": ["eq-" + w["tags"][0]]}
     for i in range(ctx.pick(300, 6000)):
         if rng.random() < 0.8:
             s = gen_udp_spec(rng)
             s["msg_meta"] = [kv for kv in s["msg_meta"] if rt_meta_ok(kv[1])]
             s["entry_meta"] = []
+            if rng.random() < 0.25:
+                have = [b[0] for b in s["blocks"]]
+                s["empty_blocks"] = [b for b in rng.sample(BNAMES + ["Empty"], rng.randrange(1, 3)) if b not in have]
         else:
             s = gen_other_spec(rng)
             s["entry_meta"] = []
@@ -1265,23 +1552,34 @@ def gen_roundtrip_specs(ctx):
 
 def correspond_roundtrip(ctx):
     res = CorrResult(suite="freeze/thaw + export/import (implementation-level oracle)",
-                     rule="generated Messages (None/bool/int/float/str/bytes/JankStringyBytes/tuple/Vector3/Vector4/Quaternion/UUID values, "
-                          "flags, acks, extra, message meta), the parsed ObjectUpdate fixture, EQ events and HTTP flows: the message dict "
-                          "(to_dict(extended=True), tuples and coordinate classes read as lists) is compared before/after freeze and "
-                          "after import_log_entries(export_log_entries([e])); non-trivial = LLUDP entry with at least one block")
+                     rule="(a) datagrams produced by the real UDPMessageSerializer from template-driven messages and decoded by the real "
+                          "UDPMessageDeserializer (eagerly and lazily parsed): a present-but-empty Variable block list at every position of "
+                          "the template (first / middle / last / only block), one and several blocks per list, trailing blocks omitted, "
+                          "random messages over the whole template with every variable type (ints, floats, vectors, quaternions, UUIDs, "
+                          "IP, Fixed, Variable text/binary = str / JankStringyBytes / bytes), extra header bytes, acks, all 16 flag "
+                          "combinations; after freeze/thaw, LLUDPMessageLogEntry.to_dict/from_dict, import_log_entries(export_log_entries) "
+                          "(twice) the full to_dict(extended=True) (tuples and coordinate classes read as lists, empty block lists kept) AND "
+                          "the re-serialised datagram are compared with those of the logged message; the same messages in their event-queue "
+                          "form (LLSDMessageSerializer) through EQMessageLogEntry export/import and rebuilt. (b) hand-built Messages (values "
+                          "of every Python type incl. None, present-but-empty block lists, message meta), the parsed ObjectUpdate fixture, "
+                          "EQ events and HTTP flows: dict before/after. non-trivial = LLUDP entry with at least one block list")
     n = 0
     nt = 0
     viols = []
     dist = {}
+    tags = {}
     seen = set()
     for s in gen_roundtrip_specs(ctx):
-        k = json.dumps(s, sort_keys=True)
+        k = json.dumps({a: b for a, b in s.items() if a != "tags"}, sort_keys=True)
         if k in seen:
             continue
         seen.add(k)
         n += 1
         dist[s["type"]] = dist.get(s["type"], 0) + 1
-        if s.get("blocks") or s["type"] == "FIXTURE":
+        for t in s.get("tags", []):
+            t = "flag-combinations" if t.startswith("flags") else t
+            tags.setdefault(t, set()).add(s["tags"][1] if t == "flag-combinations" else n)
+        if s.get("blocks") or s.get("empty_blocks") or s["type"] in ("FIXTURE", "WIRE", "WIRE-EQ"):
             nt += 1
         v = check_roundtrip(s)
         if v:
@@ -1289,7 +1587,7 @@ def correspond_roundtrip(ctx):
     res.evaluations = n
     res.distinct_nontrivial = nt
     res.impl_violations = dedupe_violations(viols)
-    res.distribution = dist
+    res.distribution = dict(dist, wire_tags={t: len(v) for t, v in sorted(tags.items())})
     res.samples = [{"entry": EXH_ENTRY, "ok": check_roundtrip(EXH_ENTRY) is None}]
     return res
 
